@@ -33,6 +33,8 @@ def run(ck):
     ck.assumptions += ['torch.randperm returns a permutation', 'training rows pairwise distinct (the property\'s precondition)',
                        'every leaf has a non-empty validation set (the property\'s proviso): leaf sizes >= 5']
     ck.check_theorems()
+    from harness import splitarith
+    splitarith.check_translation(ck)
     rng = np.random.default_rng(ck.seed + 707)
     nfits = ck.n(24, 200)
     cases = []
